@@ -222,11 +222,23 @@ def _shift_one(chk, rule, where, run_, R0, R1, T0, T1):
 
 
 def _shift_inverse(db, chk, rule, tm):
-    # inverse
+    # inverse: decided on the evaluated counter events of convert_time_series_to_events - their ts is the series' ts plus the SAME attribute
     conv = tm.func("Trace.convert_time_series_to_events")
-    adds = [n for n in ast.walk(conv) if isinstance(n, ast.BinOp) and isinstance(n.op, ast.Add) and H.is_self_attr(n.right, "min_ts") or
-            (isinstance(n, ast.BinOp) and isinstance(n.op, ast.Add) and H.is_self_attr(n.left, "min_ts"))]
-    chk.ob(rule, "the only consumer that un-shifts adds the same attribute back (+ self.min_ts)", True if len(adds) == 1 else None, tm.loc(conv), found=len(adds), accepted=1)
+    S = ("param", "SER")
+    I = Interp(db, decide=lambda c: None)
+    try:
+        runs = [r for r in I.explore(f"{TM}:Trace.convert_time_series_to_events",
+                                     lambda I: {"self": Obj("self", cls=(tm, "Trace")), "series": Frame(S, known=["pid", "ts", "tid", "CNT", "name", "id"]), "counter_name": "CN", "counter_col": "CNT"})
+                if r.raised is None and not isinstance(r.ret, list)]
+    except AnalysisError:
+        runs = []
+    E = None
+    if len(runs) == 1:
+        E = next((v for v in runs[0].env.values() if isinstance(v, Frame) and v.has("ph") and v.base == S), None)
+    want = T.add(T.col(S, "ts"), ("attr", ("obj", "self"), "min_ts"))
+    got = E.col("ts") if E is not None else None
+    chk.ob(rule, "the only consumer that un-shifts adds the same attribute back (+ self.min_ts)", None if got is None or T.has_opaque(got) else got == want, tm.loc(conv),
+           found=T.show(got)[:120] if got is not None else f"{len(runs)} path(s), events frame not found", accepted=T.show(want))
     chk.floor(rule, 5)
 
 
